@@ -56,9 +56,25 @@
    : SPEC_SX_ISDIGIT((s)[i]) ? SPEC_SX_AT_INT_DEC \
    : SPEC_SX_ISSYMINIT((s)[i]) ? SPEC_SX_AT_SYMBOL : SPEC_SX_AT_UNKNOWN)
 
-/* positional value of the digit string s[from..to) in the given base, most
- * significant digit first (Horner), modulo 2^64 */
+/* positional value of the digit run s[from..to) in base 10 or 16, modulo
+ * 2^64: the digit k places from the right counts base^k (definition of
+ * positional notation; powers as a literal table, 10^k mod 2^64) */
+#define SPEC_SX_VALUE_MAXDIGITS 24
+static const uint64_t spec_sx_pow10[SPEC_SX_VALUE_MAXDIGITS] = { 1ull, 10ull, 100ull, 1000ull, 10000ull, 100000ull, 1000000ull, 10000000ull, 100000000ull, 1000000000ull, 10000000000ull, 100000000000ull, 1000000000000ull, 10000000000000ull, 100000000000000ull, 1000000000000000ull, 10000000000000000ull, 100000000000000000ull, 1000000000000000000ull, 10000000000000000000ull, 7766279631452241920ull, 3875820019684212736ull, 1864712049423024128ull, 200376420520689664ull };
+static inline uint64_t spec_sx_pow(uint64_t base, size_t k)
+{
+  if (base == 16) return k < 16 ? (uint64_t)1 << (4 * k) : 0;
+  return k < SPEC_SX_VALUE_MAXDIGITS ? spec_sx_pow10[k] : 0 /* not used beyond the table */;
+}
 static inline uint64_t spec_sx_value(const char *s, size_t from, size_t to, uint64_t base)
+{
+  uint64_t v = 0;
+  for (size_t k = 0; k < to - from; k++)
+    v += spec_sx_pow(base, k) * SPEC_SX_DIGITVAL(s[to - 1 - k]);
+  return v;
+}
+/* the same value read most significant digit first (Horner) */
+static inline uint64_t spec_sx_horner(const char *s, size_t from, size_t to, uint64_t base)
 {
   uint64_t v = 0;
   for (size_t k = from; k < to; k++)
